@@ -6,7 +6,7 @@ package main
 // pooled non-local name (ctx cells, headers, re.group.N - read with ProcessExpression on an
 // identifier, which allocates nothing the program can see).
 //
-// request : <scope> <pool: comma separated names or -> <hex of VCL>     (entry point: sub t_main)
+// request : <scope> <pool: comma separated names or -> <hex of VCL> [logcheck]    (entry point: sub t_main)
 // reply   : ok (e <line> <depth> <frame> (<local> <val>)... | <pool val>...) ... (end <status> <frame> ...) (logs "hex"...)
 //           initerr <msg> when the program does not load
 
@@ -64,6 +64,7 @@ type storeDebugger struct {
 	pool   []string
 	out    []string
 	logs   []string
+	slim   bool // log cross-check mode: only what `log <name>;` statements need
 	frames map[uintptr]int
 	keep   []map[string]value.Value // keeps every frame's map alive so that an address is never reused
 }
@@ -107,6 +108,28 @@ func (d *storeDebugger) snap(head string) {
 }
 
 func (d *storeDebugger) Run(n ast.Node) interpreter.DebugState {
+	if d.slim {
+		// (l <line> <depth> <raw value of the logged name>) for `log <identifier>;`, (s <line> <depth>) otherwise
+		if _, isDecl := n.(*ast.SubroutineDeclaration); isDecl {
+			return interpreter.DebugStepIn
+		}
+		if ls, ok := n.(*ast.LogStatement); ok {
+			if id, ok := ls.Value.(*ast.Ident); ok {
+				var v value.Value
+				if strings.HasPrefix(id.Value, "var.") {
+					v = d.i.VerifStoreLocals()[id.Value]
+				} else if x, err := d.i.ProcessExpression(&ast.Ident{Meta: id.Meta, Value: id.Value}); err == nil {
+					v = x
+				}
+				d.out = append(d.out, fmt.Sprintf("(l %d %d %s)", n.GetMeta().Token.Line, d.i.VerifStoreCallDepth(), stVal(v)))
+				return interpreter.DebugStepIn
+			}
+		}
+		if _, ok := n.(ast.Statement); ok {
+			d.out = append(d.out, fmt.Sprintf("(s %d %d)", n.GetMeta().Token.Line, d.i.VerifStoreCallDepth()))
+		}
+		return interpreter.DebugStepIn
+	}
 	if _, ok := n.(ast.Statement); ok {
 		if _, isDecl := n.(*ast.SubroutineDeclaration); !isDecl {
 			d.snap(fmt.Sprintf("e %d %d %d", n.GetMeta().Token.Line, d.i.VerifStoreCallDepth(), d.frame()))
@@ -121,7 +144,7 @@ func (d *storeDebugger) Log(_ *ast.LogStatement, s string) {
 
 func storeSnapshot(args string) string {
 	f := strings.Fields(args)
-	if len(f) != 3 {
+	if len(f) != 3 && len(f) != 4 {
 		return "badreq"
 	}
 	scope := icontext.ScopeByString(f[0])
@@ -134,7 +157,7 @@ func storeSnapshot(args string) string {
 		return "badreq hex"
 	}
 	i := interpreter.New(icontext.WithResolver(resolver.NewStaticResolver("main.vcl", string(src))))
-	d := &storeDebugger{i: i, pool: pool, frames: map[uintptr]int{}}
+	d := &storeDebugger{i: i, pool: pool, frames: map[uintptr]int{}, slim: len(f) == 4 && f[3] == "logcheck"}
 	req, err := ihttp.NewRequest(ghttp.MethodGet, "http://localhost/", ghttp.NoBody)
 	if err != nil {
 		return "initerr request"
@@ -156,7 +179,11 @@ func storeSnapshot(args string) string {
 	} else if state != interpreter.NONE {
 		status = "state-" + string(state)
 	}
-	d.snap(fmt.Sprintf("end %s %d", status, d.frame()))
+	if d.slim {
+		d.out = append(d.out, "(end "+status+")")
+	} else {
+		d.snap(fmt.Sprintf("end %s %d", status, d.frame()))
+	}
 	logs := make([]string, len(d.logs))
 	for k, l := range d.logs {
 		logs[k] = hx(l)
